@@ -43,6 +43,8 @@ CONSTANTS
                  \* guards at delivery and the join when the decision resumes (JoinResume); FALSE: the shipped classes
   JoinCacheFirst,\* TRUE: join_circuit registers the CreatedRequestCache (which raises for a circuit id that has one) BEFORE it
                  \* installs the exit socket (the code); FALSE: the other order (negative control for KeyAgreement)
+  CandsGuard,    \* TRUE: an answer whose candidate list does not decode ends the circuit (the code since the fix); FALSE:
+                 \* the pinned earlier behaviour (negative control for HopByRightAnswer)
   RelayOnce,     \* TRUE: a created for a circuit that was already turned into a relay is dropped (the code since the fix);
                  \* FALSE: the pinned earlier behaviour - while the exit entry lingers (remove_tunnel_delay) the forward route
                  \* is re-pointed by whichever created arrives last (negative control for PathAgreement)
@@ -383,10 +385,17 @@ Ours(n, cid, m, consumed) ==
          /\ circ' = [circ EXCEPT ![n] = Beat(Put(@, cid, c1), n, cid)]
          /\ retryC' = [retryC EXCEPT ![n] = IF c1.closing THEN @ ELSE Del(@, cid)]
          /\ Emit(consumed, <<>>) /\ UNCHANGED <<pend, ctr>>
-    ELSE IF m.cands.k # key THEN
-         \* candidates_enc does not decrypt: exception after the hop was added; nothing else happens
+    ELSE IF m.cands.k # key /\ ~CandsGuard THEN
+         \* (pinned earlier behaviour) candidates_enc does not decrypt: exception after the hop was added; nothing else
+         \* happens - the retry cache of the previous step stays and later re-runs that step on top of the new hop
          /\ circ' = [circ EXCEPT ![n] = Put(@, cid, c1)]
          /\ Emit(consumed, <<>>) /\ UNCHANGED <<retryC, pend, ctr>>
+    ELSE IF m.cands.k # key THEN
+         \* candidates_enc does not decrypt: the hop has been added, the circuit is given up (no destroy)
+         LET r == RemoveCircuitStep(n, cid, FALSE) IN
+         /\ circ' = [circ EXCEPT ![n] = Put(r.circ, cid, [c1 EXCEPT !.closing = TRUE])]
+         /\ retryC' = [retryC EXCEPT ![n] = r.retry] /\ pend' = r.pend
+         /\ Emit(consumed, <<>>) /\ UNCHANGED ctr
     ELSE
       LET becomeExit == c1.goal - 1 = Len(c1.hops)
           offered == IF becomeExit THEN m.cands.v.exits
@@ -975,6 +984,13 @@ PathOK(hops, i, n, id) ==
 PathAgreement ==
   \A x \in Circs : LET c == circ[x[1]][x[2]] IN
      Len(c.hops) >= 1 => PathOK(c.hops, 1, c.hops[1].peer, x[2])
+\* the hop list is a path: the first hop is added by a created (the answer to the originator's own create), every further
+\* hop by an extended that came back through the hops before it
+HopByRightAnswer ==
+  [][\A n \in Node : \A c \in DOMAIN circ[n] \cap DOMAIN circ'[n] :
+        Len(circ'[n][c].hops) > Len(circ[n][c].hops) =>
+           \E d \in net \ net' : d.t = "cell" /\ d.dst = n /\ d.cid = c
+                                   /\ d.m.t = (IF circ[n][c].hops = <<>> THEN "created" ELSE "extended")]_vars
 \* a hop is only added by an answer that carries the identifier of the outstanding request of that circuit
 AnswerMustMatch ==
   [][\A n \in Node : \A c \in DOMAIN circ[n] \cap DOMAIN circ'[n] :
